@@ -5,12 +5,16 @@
 // process and the engine records CRASH for that line.
 //   list                          -> prints the case lines this binary knows (used by the generator)
 //   misuse <call> <role> <kind>   -> OK value | ERR class
+//   value <op> <args>             -> OK value | ERR class    (NDSize / NDArray value types, see value_ops)
 #include "common.hpp"
 #include <hdf5.h>
 #include <nix/util/dataAccess.hpp>
 #include <map>
 #include <functional>
 #include <memory>
+#include <cstring>
+#include <sstream>
+#include <nix/NDArray.hpp>
 
 using namespace nixv;
 using namespace nix;
@@ -340,7 +344,101 @@ static const char *kinds_for(const std::string &role, int i) {
     return all[i];
 }
 
+// ---- value types of the public API (NDSize, NDArray): construction from empty containers, swap, arithmetic with
+// mismatching ranks, element access past the end.  Objects are built by placement new inside storage that was
+// filled with 0xAB first, so that a member a constructor forgets to initialise is visibly garbage.
+template<typename F> static std::string in_dirty_ndsize(F f) {
+    alignas(NDSize) unsigned char buf[sizeof(NDSize)];
+    std::memset(buf, 0xAB, sizeof(buf));
+    NDSize *p = f(static_cast<void *>(buf));
+    std::string out = "rank=" + std::to_string(p->size()) + " [";
+    for (size_t i = 0; i < p->size(); i++) out += " " + std::to_string((*p)[i]);
+    out += " ] nelms=" + std::to_string(p->size() ? p->nelms() : 0);
+    p->~NDSize();
+    return out;
+}
+
+static std::string show_nd(const NDSize &n) {
+    std::string out = "rank=" + std::to_string(n.size()) + " [";
+    for (size_t i = 0; i < n.size(); i++) out += " " + std::to_string(n[i]);
+    return out + " ]";
+}
+
+static const char *value_ops[] = {
+    "ndfromvec 0", "ndfromvec 1", "ndfromvec 3", "ndfromlist 0", "ndfromlist 2", "ndfill 0", "ndfill 3", "nddefault 0",
+    "ndswap 1 3", "ndswap 3 1", "ndswap 0 2", "ndswap 2 0", "ndswap 2 2",
+    "ndcopy 0", "ndcopy 3", "ndmove 0", "ndmove 3", "ndassign 1 3", "ndassign 3 0", "ndassign 0 3",
+    "ndarith add 2 2", "ndarith add 2 3", "ndarith sub 2 2", "ndarith sub 3 2", "ndarith mul 2 2", "ndarith mul 1 2", "ndarith div 2 2", "ndarith div 2 1",
+    "ndarith lt 2 2", "ndarith lt 2 3", "ndarith le 0 0", "ndarith gt 3 2", "ndarith ge 1 1", "ndarith eq 2 3", "ndarith ne 0 1",
+    "ndarith dot 2 2", "ndarith dot 2 3", "ndarith dot 0 0",
+    "ndindex 2 0", "ndindex 2 1", "ndindex 2 2", "ndindex 2 100", "ndindex 0 0",
+    "ndscalar add 3", "ndscalar sub 3", "ndscalar dec 3", "ndscalar inc 3",
+    "ndarray get 2x3 0", "ndarray get 2x3 5", "ndarray get 2x3 6", "ndarray get 2x3 1000", "ndarray set 2x3 5", "ndarray set 2x3 6", "ndarray set 2x3 1000",
+    "ndarray getnd 2x3 1,2", "ndarray getnd 2x3 2,0", "ndarray getnd 2x3 1", "ndarray getnd 2x3 0,0,0", "ndarray setnd 2x3 1,2", "ndarray setnd 2x3 5,5",
+    "ndarray getwide 2x3 5", "ndarray resize 2x3 0", "ndarray zero 0 0",
+    nullptr};
+
+static std::string value_op(const std::vector<std::string> &t) {
+    const std::string &op = t[1];
+    auto num = [&](size_t i) { return static_cast<size_t>(dec_u64(t.at(i))); };
+    if (op == "ndfromvec") { size_t n = num(2); return in_dirty_ndsize([&](void *b) { return new (b) NDSize(std::vector<int>(n, 3)); }); }
+    if (op == "ndfromlist") {
+        if (num(2) == 0) return in_dirty_ndsize([&](void *b) { return new (b) NDSize(std::initializer_list<int>{}); });
+        return in_dirty_ndsize([&](void *b) { return new (b) NDSize({4, 5}); });
+    }
+    if (op == "ndfill") { size_t n = num(2); return in_dirty_ndsize([&](void *b) { return new (b) NDSize(n, 7); }); }
+    if (op == "nddefault") return in_dirty_ndsize([&](void *b) { return new (b) NDSize(); });
+    if (op == "ndswap") {
+        NDSize a(num(2), 7), b(num(3), 9);
+        a.swap(b);
+        NDSize ca(a), cb(b);     // a copy reads rank-many entries
+        return "a: " + show_nd(a) + " b: " + show_nd(b) + " copies: " + show_nd(ca) + " " + show_nd(cb);
+    }
+    if (op == "ndcopy") { NDSize a(num(2), 7); NDSize b(a); return show_nd(b); }
+    if (op == "ndmove") { NDSize a(num(2), 7); NDSize b(std::move(a)); return show_nd(b) + " from: " + show_nd(a); }
+    if (op == "ndassign") { NDSize a(num(2), 7), b(num(3), 9); a = b; return show_nd(a) + " " + show_nd(b); }
+    if (op == "ndarith") {
+        const std::string &f = t.at(2);
+        NDSize a(num(3), 6), b(num(4), 3);
+        if (f == "add") return show_nd(a + b);
+        if (f == "sub") return show_nd(a - b);
+        if (f == "mul") return show_nd(a * b);
+        if (f == "div") return show_nd(a / b);
+        if (f == "lt") return a < b ? "1" : "0";
+        if (f == "le") return a <= b ? "1" : "0";
+        if (f == "gt") return a > b ? "1" : "0";
+        if (f == "ge") return a >= b ? "1" : "0";
+        if (f == "eq") return a == b ? "1" : "0";
+        if (f == "ne") return a != b ? "1" : "0";
+        if (f == "dot") return std::to_string(a.dot(b));
+    }
+    if (op == "ndindex") { NDSize a(num(2), 7); return std::to_string(a[num(3)]); }
+    if (op == "ndscalar") {
+        const std::string &f = t.at(2);
+        NDSize a(num(3), 6);
+        if (f == "add") return show_nd(a + 2);
+        if (f == "sub") { a -= 2; return show_nd(a); }
+        if (f == "dec") { a--; --a; return show_nd(a); }
+        if (f == "inc") { a++; ++a; return show_nd(a); }
+    }
+    if (op == "ndarray") {
+        const std::string &f = t.at(2);
+        auto idx = [&](const std::string &x) { std::vector<ndsize_t> v; std::stringstream ss(x); std::string it; while (std::getline(ss, it, ',')) v.push_back(dec_u64(it)); return NDSize(v); };
+        if (f == "zero") { NDArray z(DataType::Double, NDSize()); return "elems=" + std::to_string(z.rank()); }
+        NDArray arr(DataType::Double, NDSize({2, 3}));
+        for (size_t i = 0; i < 6; i++) arr.set<double>(i, 10.0 + static_cast<double>(i));
+        if (f == "get") return enc_dbl(arr.get<double>(num(4)));
+        if (f == "set") { arr.set<double>(num(4), 1.5); return "done"; }
+        if (f == "getnd") return enc_dbl(arr.get<double>(idx(t.at(4))));
+        if (f == "setnd") { arr.set<double>(idx(t.at(4)), 1.5); return "done"; }
+        if (f == "getwide") { NDArray small(DataType::Int8, NDSize({2, 3})); return enc_dbl(small.get<double>(num(4))); }
+        if (f == "resize") { arr.resize(NDSize({0, 3})); return "elems=" + std::to_string(arr.num_elements()); }
+    }
+    throw std::logic_error("bad value op");
+}
+
 static std::string handle(const std::vector<std::string> &t) {
+    if (t[0] == "value") return value_op(t);
     if (t[0] != "misuse" || t.size() != 4) throw std::logic_error("bad command");
     Ctx c;
     c.file = File::open(wd + "/main.nix", FileMode::Overwrite);
@@ -368,6 +466,7 @@ int main(int argc, char **argv) {
     init_breakers();
     init_calls();
     if (argc >= 2 && std::string(argv[1]) == "list") {
+        for (const char **v = value_ops; *v; v++) std::cout << "value " << *v << "\n";
         for (auto &p : calls)
             for (auto &r : p.second.roles) {
                 std::cout << "misuse " << p.first << " " << r << " good\n";
